@@ -10,6 +10,8 @@ CONSTANTS
   Depth = 3
   PFault <- PFaultConfigs
   Sym = TRUE
+  DeepConfigs <- NoConfigs
+  DeepDepth = 0
 CONSTRAINT Emit
 INVARIANTS Conforms
 CHECK_DEADLOCK FALSE
